@@ -1153,6 +1153,10 @@ class Exec:
             return z3.simplify(z3.And(*[self.key_eq(p, q) for p, q in zip(a.f, b.f)])) if a.f else z3.BoolVal(True)
         if isinstance(a, Array) and isinstance(b, Array) and len(a.e) == len(b.e):
             return z3.simplify(z3.And(*[self.key_eq(p, q) for p, q in zip(a.e, b.e)])) if a.e else z3.BoolVal(True)
+        if isinstance(a, Ptr) and isinstance(b, Ptr):
+            return z3.BoolVal(a.obj == b.obj and tuple(a.path) == tuple(b.path))
+        if (a is NIL or isinstance(a, Ptr)) and (b is NIL or isinstance(b, Ptr)):
+            return z3.BoolVal(a is b)
         raise Unsupported('map key comparison of %r and %r' % (a, b))
 
     def op_Lookup(self, st, fr, ins):
